@@ -89,6 +89,18 @@ def ev_in_decl(ev, u):
     return False
 
 
+def flat(body):
+    for st in body:
+        yield st
+        if st[0] == 'block': yield from flat(st[1])
+        elif st[0] in ('if',):
+            yield from flat(st[1])
+            if st[2] is not None: yield from flat(st[2])
+        elif st[0] == 'ifs':
+            yield st[1]
+            if st[2] is not None: yield st[2]
+
+
 def cases(tier, seed):
     rng = random.Random(seed)
     out = []
@@ -112,6 +124,22 @@ def cases(tier, seed):
                             ('block', [('decl', 'y'), ('block', [('label', 'a'), ('use', 'y')])]), ('block', [('label', 'b'), ('use', 'x')])])
         out.append(("n", body[:k] + [extra] + body[k:]))
     return out, nex, maxn
+
+
+# the places a variable can be used in: the verdict depends on the name only, never on the expression around it
+# (an index inside a length `|a[x]|` that the typer folds away must still be looked at)
+USEFORMS = [("len", "|qa[%s as usize]| as i32"), ("idx", "qb[%s as usize]"), ("call", "helper(%s)"), ("neg", "-%s"), ("paren", "((%s))"), ("bin", "1 + %s * 2"),
+            ("cast", "(%s as i64) as i32"), ("lenidx2", "|qa[|qa[%s as usize]|]| as i32"), ("arrlit", "|[%s, 1, 2]| as i32"), ("nested", "helper(qb[helper(%s) as usize])")]
+FORM_PRELUDE = "fn helper(a: i32) -> i32\n{\n\treturn: a\n}\n"
+FORM_LOCALS = "\tvar qa: [6][4]i32;\n\tvar qb: [4]i32 = [1, 2, 3, 4];\n"
+
+
+def program_form(body, form):
+    G.USEFORM[0] = form
+    try:
+        return FORM_PRELUDE + "fn main(p: i32) -> i32\n{\n\tvar r: i32 = 0;\n" + FORM_LOCALS + G.render(body) + "\treturn: r\n}\n"
+    finally:
+        G.USEFORM[0] = None
 
 
 def program(body, template=0):
@@ -145,6 +173,13 @@ def run(tier):
             t = 1 + (i // 2) % 3
             if t == 1 and k == "s": continue
             srcs.append(("%s%dt%d" % (k, i, t), program(b, t)))
+    # the same bodies with every use of a variable inside another expression form
+    nf = 0
+    for i, (k, b) in enumerate(bodies):
+        if k in ("r", "s") and any(st[0] in ("use", "declu") for st in flat(b)) and i % (4 if tier == "quick" else 2) == 0:
+            name, pat = USEFORMS[(i // 4) % len(USEFORMS)]
+            srcs.append(("%s%du%s" % (k, i, name), program_form(b, pat))); nf += 1
+    ck.log("use forms: %d programs" % nf)
     impl = C.run_harness("front", srcs, ck.work)
     items = [("vars", cid, impl[cid][2]) for cid, _ in srcs if cid in impl and len(impl[cid]) >= 3 and impl[cid][2].startswith("(")]
     # the specifications of the two earlier stages the skip rule relies on (C04 labels, C06 syntax)
@@ -196,6 +231,34 @@ def run(tier):
         elif mod != real_var:
             mism += 1
             ck.violation("tie-broken:correspondence", "model %s differs from implementation %s" % (mod, real_var), replay)
+    # visibility across modules: what a module imports is in scope there and NOT in the modules that import it in turn
+    # (a imports b imports c), whatever the order in which the files are given
+    import itertools
+    mods = {"c.pn": "pub const LIMIT: i32 = 7;\nconst HIDDEN: i32 = 8;\n",
+            "b.pn": "import \"c.pn\";\npub fn clamp(x: i32) -> i32\n{\n\tvar r: i32 = x;\n\tif r > LIMIT\n\t{\n\t\tr = LIMIT;\n\t}\n\treturn: r\n}\nconst INNER: i32 = 3;\n"}
+    amods = [("uses-transitive", "import \"b.pn\";\nfn main() -> i32\n{\n\tvar r: i32 = clamp(LIMIT);\n\treturn: r\n}\n", ["402"]),
+             ("declares-transitive", "import \"b.pn\";\nfn main() -> i32\n{\n\tvar LIMIT: i32 = 9;\n\treturn: clamp(LIMIT)\n}\n", []),
+             ("uses-private", "import \"b.pn\";\nfn main() -> i32\n{\n\treturn: clamp(INNER)\n}\n", ["402"]),
+             ("declares-private", "import \"b.pn\";\nfn main() -> i32\n{\n\tvar INNER: i32 = 1;\n\tvar HIDDEN: i32 = 2;\n\treturn: clamp(INNER + HIDDEN)\n}\n", []),
+             ("uses-direct", "import \"b.pn\";\nimport \"c.pn\";\nfn main() -> i32\n{\n\treturn: clamp(LIMIT)\n}\n", []),
+             ("redeclares-direct", "import \"b.pn\";\nimport \"c.pn\";\nfn main() -> i32\n{\n\tvar LIMIT: i32 = 9;\n\treturn: clamp(LIMIT)\n}\n", ["422"])]
+    msrcs = []
+    for ai, (what, atext, want) in enumerate(amods):
+        for oi, order in enumerate(itertools.permutations(["a.pn", "b.pn", "c.pn"])):
+            texts = dict(mods); texts["a.pn"] = atext
+            msrcs.append(("m%d.%d" % (ai, oi), "".join("//// module %s\n%s" % (n, texts[n]) for n in order), what, want))
+    mimpl = C.run_harness("ir", [(c[0], c[1]) for c in msrcs], ck.work + "/modules", timeout=1200)
+    mbad = 0
+    for cid, src, what, want in msrcs:
+        f = mimpl.get(cid, ["missing"])
+        if f[0].startswith("ok"): got = []
+        elif f[0].startswith("err codes="): got = sorted(x for x in f[0][len("err codes="):].split(" ")[0].strip("[]").split(",") if x in VAR)
+        else:
+            ck.violation(C.failure_key(f[0]), "compiler failed on a three-module program: " + f[0][:200], src); continue
+        if got != want:
+            mbad += 1; mism += 1
+            ck.violation("wrong-visibility-across-modules:" + what, "three modules (a imports b imports c), %s: the variable-scoping codes are %s, expected %s" % (what, got, want), src)
+    ck.log("visibility across modules: %d module sets, %d problems" % (len(msrcs), mbad))
     if not proof_ok:
         ck.violation("tie-broken:proof", "Props/C05.v no longer checks", getattr(ck, "proof_output", "")[-2000:])
     ck.coverage.update(
